@@ -44,6 +44,7 @@ class Check(PropertyCheck):
     extra_modules = ["Model.JobTrace", "Props.C09Tree"]
     theorems = ["C09_waiting_has_waker_partial", "C09_holder_is_running", "C09_no_stuck_waiting",
                 "C09_refuted_without_recheck", "C09_witness_fixed",
+                "C09_no_lost_event", "C09_quiescent_all_settled", "C09_quiescent_nonvacuous",
                 "C09_tree_steps_bounded", "C09_tree_step_decreases", "C09_tree_quiescent_settled", "C09_tree_nonvacuous",
                 "C09_fail_fast_leaves_unsettled_refuted"]
     theorem_modules = ["Props.C09Tree"]      # closed-program termination on the tree machine
@@ -51,7 +52,7 @@ class Check(PropertyCheck):
     assumptions = [
         "every task function terminates and the workflow is finite (premise of the property; the open model leaves the creation of jobs to the schedule)",
         "no job demands more of a resource than its limit (feas_op premise)",
-        "NOT proved: a termination measure for finite workflows (reached by the trace correspondence and by the quiescence oracle on the real event loop only)",
+        "NOT proved for the open machine: a termination measure (the closed tree machine has one, Props/C09Tree.v); proved instead: no event is ever lost and a quiescent state has every job ended",
     ]
     rule = ("random feasible programs (twins, failures, catch, limits on 2 resources) on the real Scheduler with a "
             "controlled executor; the oracle flags queue-empty + nothing-running + workflow-pending; non-trivial = >= 3 jobs")
@@ -61,7 +62,9 @@ class Check(PropertyCheck):
         v = self.variant
         if v["release_if_holds"] and v["recheck_on_skip"]:
             tie = ("Lemma C09_tie : release_if_holds gen_variant = true /\\ recheck_on_skip gen_variant = true.\n"
-                   "Proof. split; reflexivity. Qed.\n")
+                   "Proof. split; reflexivity. Qed.\n"
+                   "(* C09_no_lost_event / C09_quiescent_all_settled apply to the code as translated *)\n"
+                   "Lemma C09_tie_owner : pending_owner_safe gen_variant = true.\nProof. reflexivity. Qed.\n")
         else:
             tie = ("(* the current code does not re-check waiting jobs on the collapse/cache-hit early returns: "
                    "C09_refuted_without_recheck is the applicable theorem *)\n"
